@@ -11,4 +11,4 @@ git -C /repo worktree add --detach $WT HEAD >/dev/null 2>&1 || { echo "cannot cr
 trap 'git -C /repo worktree remove --force $WT >/dev/null 2>&1; rm -rf $WT.ev $WT.out' EXIT
 ( cd $WT && { git apply "$P" 2>/dev/null || git apply -3 "$P" >/dev/null 2>&1; } ) || { echo "PATCH DOES NOT APPLY: $P"; exit 2; }
 ( cd $WT && go build ./... ) || { echo "DOES NOT BUILD: $P"; exit 2; }
-/verif/bin/pandoravet -repo $WT -verif /verif -prop "$PROP" -tier quick -evidence-dir $WT.ev -out-dir $WT.out 2>&1 | grep -E "^(VIOLATED|UNDECIDED|VIOLATION|C[0-9][0-9]:)" | sed "s#$WT/##g" | cut -c1-400
+${PV_BIN:-/verif/bin/pandoravet} -repo $WT -verif /verif -prop "$PROP" -tier quick -evidence-dir $WT.ev -out-dir $WT.out 2>&1 | grep -E "^(VIOLATED|UNDECIDED|VIOLATION|C[0-9][0-9]:)" | sed "s#$WT/##g" | cut -c1-400
